@@ -542,8 +542,14 @@ class LinearOperator(EditableModule):
 
         # calculate (dL/dx)^T = A^T (dL/dy)^T with (dL/dy)^T = xt
         xt2 = xt.contiguous().expand_as(y)  # (*BAY, p)
+        if not y.requires_grad:
+            # the operator does not depend on its input: it is the zero operator
+            return torch.zeros_like(xdummy)
         res = torch.autograd.grad(y, xdummy, grad_outputs=xt2,
-                                  create_graph=torch.is_grad_enabled())[0]  # (*BAY, q)
+                                  create_graph=torch.is_grad_enabled(),
+                                  allow_unused=True)[0]  # (*BAY, q)
+        if res is None:
+            res = torch.zeros_like(xdummy)
         return res
 
     # def __check_if_implemented(self, methodname: str) -> bool:
@@ -806,10 +812,15 @@ def checklinop(linop: LinearOperator) -> None:
         runtest("rmm", (*rmv_xshape, r), (*rmv_yshape, r))
 
 def _is_hermitian_matrix(mat: torch.Tensor) -> bool:
-    # the absolute tolerance follows the magnitude of the matrix, so that a matrix
-    # with small entries is not taken for a Hermitian one
-    scale = float(mat.abs().max()) if mat.numel() > 0 else 0.0
-    return torch.allclose(mat, mat.transpose(-2, -1).conj(), rtol=1e-5, atol=1e-8 * scale)
+    # the absolute tolerance of an entry follows the magnitude of its row and column
+    # (of its own matrix in a batch), so that neither a matrix with small entries nor a
+    # small block next to large entries is taken for a Hermitian one
+    if mat.numel() == 0:
+        return True
+    absmat = mat.abs()
+    s = torch.maximum(absmat.amax(dim=-1), absmat.amax(dim=-2))  # (..., n)
+    tol = 1e-8 * torch.sqrt(s.unsqueeze(-1) * s.unsqueeze(-2)) + 1e-5 * absmat
+    return bool(torch.all((mat - mat.transpose(-2, -1).conj()).abs() <= tol))
 
 ########### repr helper functions ###########
 def _indent(s, nspace):
